@@ -20,6 +20,7 @@ type siteKey struct {
 }
 
 type siteInfo struct {
+	trivial bool // reached on some path on which the obligation held by construction (no query generated)
 	key   siteKey
 	order [4]int // sort key: depth-independent static order
 	name  string
@@ -53,6 +54,7 @@ type Exec struct {
 	seqCtr     int
 	ghostDone  map[string]bool
 	assertSeen map[*Clause]bool
+	trivialSites map[siteKey]bool
 	knownObl   map[string]bool
 	callOrds   map[*ssa.Function]map[ssa.Instruction]int
 	ghosts     map[string]*Ghost
@@ -75,7 +77,7 @@ type Exec struct {
 
 func newExec(prog *ssa.Program, fset *token.FileSet) *Exec {
 	return &Exec{prog: prog, fset: fset, reg: newRegistry(), contracts: map[string]*PkgContracts{}, active: map[string]bool{},
-		sites: map[siteKey]*siteInfo{}, oblSite: map[*Obligation]*siteInfo{}, notes: map[string]bool{}, trusted: map[string]bool{},
+		sites: map[siteKey]*siteInfo{}, trivialSites: map[siteKey]bool{}, oblSite: map[*Obligation]*siteInfo{}, notes: map[string]bool{}, trusted: map[string]bool{},
 		globals: map[*ssa.Global]*Cell{}, loopCache: map[*ssa.Function][]*loopInfo{}, modCache: map[*ssa.Function]*modSet{},
 		inlineMax: 6, maxPath: 200000, ghostDone: map[string]bool{}, ghosts: map[string]*Ghost{}, ghostSig: map[string][]string{}, funcsSeen: map[string]bool{}, ufuns: map[string]*Ghost{}}
 }
@@ -633,18 +635,24 @@ func (x *Exec) oblige(st *State, fr *Frame, kind, tag string, in interface{}, id
 			return // `partial` contract: only the listed ensures / asserts are claimed for this function
 		}
 	}
-	if goal == "true" {
-		// still record trivially-true obligations? no: keep counts honest, record as discharged-by-construction
-		return
-	}
 	sub := ""
 	if fr != nil && fr.fn != x.curTop {
 		sub = funcKey(fr.fn)
 	}
 	k := siteKey{top: x.curTopName, sub: sub, kind: kind, tag: tag, in: in, idx: idx}
+	if goal == "true" {
+		// holds by construction on this path (no query); remembered so that the vacuity guard knows the
+		// obligation was reached on a path on which it is not just vacuously true
+		if si, ok := x.sites[k]; ok {
+			si.trivial = true
+		} else {
+			x.trivialSites[k] = true
+		}
+		return
+	}
 	si, ok := x.sites[k]
 	if !ok {
-		si = &siteInfo{key: k}
+		si = &siteInfo{key: k, trivial: x.trivialSites[k]}
 		if ins, ok := in.(ssa.Instruction); ok && ins != nil && ins.Block() != nil {
 			si.order = [4]int{0, ins.Block().Index, instrIndex(ins), idx}
 		} else if c, ok := in.(*Clause); ok {
